@@ -31,7 +31,7 @@ ASSUMPTIONS = [
     "an upload whose newBLOBVector is longer than the server-side 2048-character threshold cannot be framed (C02 states the limit) - recorded as known finding K03, every other upload failure is a violation",
     "megabyte payloads cost seconds each (the framing buffer rescans its content on every read) and are drawn rarely, in the thorough tier only",
 ]
-QUICK_RUNS = 700
+QUICK_RUNS = 600
 QUICK_BUDGET_S = 150
 THOROUGH_BUDGET_S = 360
 CHUNK = 20
@@ -70,12 +70,17 @@ def generate(seed, tier, index):
     L = lens[index % len(lens)]
     big = L > 20000
     frag = rng.choice(["fixed:1024", "fixed:1024", "random", "whole", "coalesce", "fixed:7"] + ([] if L > 3000 else ["fixed:1"]))
-    raw = rng.sample(["unset", "Never", "Also", "Only"], rng.randint(1, 3))
+    raw = rng.sample(["unset", "Never", "Also", "Only"], rng.randint(1, 4))
+    if rng.random() < 0.3:
+        raw = ["Also", "Only"] + [x for x in raw if x not in ("Also", "Only")]
     steps = [{"op": "down", "len": L, "pattern": rng.choice(["random", "random", "zeros", "ff"]), "format": rng.choice([".fits", ".jpg", "", ".x\xe9", ".fits.z"]),
               "other_unset": rng.random() < 0.5,
               # more traffic for the same connections is routed in the same loop iteration as the BLOB, i.e. while its
               # write/drain is still in flight (what a camera streaming frames plus status updates does)
-              "burst": rng.random() < 0.5}]
+              "burst": rng.random() < 0.5,
+              # one of the raw peers is reset at the very instant of the publication: its handler is not yet reaped when the
+              # BLOB is fanned out; everybody else must still receive the frame
+              "reset_peer": rng.random() < 0.2}]
     up_len = L if rng.random() < 0.5 else rng.choice([0, 1, 100, 1000, 1395, 1400, 1500, 3000])
     if big:
         up_len = rng.choice([0, 100, 1000])
@@ -179,6 +184,15 @@ def execute(scen):
                 ctx = f"download of {L} bytes format {fmt!r} frag {net['frag']}"
                 for pol, p in raws.items():
                     p.mark = len(p.received)
+                if st.get("reset_peer") and op == "down":
+                    live = [pol for pol, p in raws.items() if not getattr(p, "cut", False)]
+                    if len(live) >= 2:
+                        victim = raws[live[0]]  # the earliest registered live raw peer
+                        victim.cut = True
+                        # as a real RST shows up: the server-side transport is marked closing/aborted now, its handler runs later
+                        victim.transport.peer._closing = True
+                        sim.do(sim.net.fault_reset, victim.transport.peer)
+                        faults["reset_at_publication"] = faults.get("reset_at_publication", 0) + 1
                 if not st.get("other_unset", True):
                     apply_step(stack, {"op": "d_reset", "dev": "CAM", "vec": "IMG", "el": "B1", "value": {"blob_hex": "0a0b", "format": ".o"}})
                 if op == "down_reset":
